@@ -64,13 +64,15 @@ def direct_ld(pos, m, G, soft, mask, shifts=((0.0, 0.0, 0.0),), weight=None):
         rmin2 = min(rmin2, float(np.min(np.where(use, r2, np.inf))))
         with np.errstate(divide="ignore", invalid="ignore"):
             w = Gl * M[None, :] / (r2u * np.sqrt(r2u))
-        if weight is not None:
-            w = w * weight(np.sqrt(r2u))
         w = np.where(use, w, LD(0))
+        w0 = w
+        if weight is not None:
+            w = w * weight(np.sqrt(r2u))      # weights are in [0,1]; cond keeps the unweighted magnitudes because
+            #                                   the absolute rounding error of a weight near 0 scales with the full term
         acc -= np.sum(w[:, :, None] * D, axis=1)
         dn = np.sqrt(np.sum(D * D, axis=2))
         e = np.sqrt(np.sum(Xi * Xi, axis=1))[:, None] if nz else LD(0)
-        cond += np.sum(np.abs(w) * (dn + 4 * e), axis=1)
+        cond += np.sum(np.abs(w0) * (dn + 4 * e), axis=1)
     return acc, cond.astype(float), rmin2
 
 
@@ -115,7 +117,7 @@ def ghost_shifts(box, ng, shear=None):
     return out
 
 
-def jacobi_terms_mp(pos, m, G, dps=40):
+def jacobi_terms_mp(pos, m, G, dps=40, soft=0.0):
     """Accelerations in inertial coordinates generated by the Jacobi part of the Wisdom-Holman interaction
     Hamiltonian  U_J = sum_{i>=1} G m_i eta_{i-1} / |r'_i|,  r'_i = r_i - R_{i-1}  (Rein & Tamayo 2015, eq. 11-13):
         a_k = -(1/m_k) d(U_J)/d r_k = [k>=1] G eta_{k-1} r'_k/|r'_k|^3 - sum_{i>k} G m_i r'_i/|r'_i|^3
@@ -135,7 +137,7 @@ def jacobi_terms_mp(pos, m, G, dps=40):
     for i in range(1, N):
         R = [c / eta for c in S]
         rp = [X[i][k] - R[k] for k in range(3)]
-        r = mp.sqrt(rp[0] ** 2 + rp[1] ** 2 + rp[2] ** 2)
+        r = mp.sqrt(rp[0] ** 2 + rp[1] ** 2 + rp[2] ** 2 + mp.mpf(soft) ** 2)   # softened like every other distance
         u = [c / r ** 3 for c in rp]
         tgt = acc1 if i == 1 else acc
         un = mp.sqrt(u[0] ** 2 + u[1] ** 2 + u[2] ** 2)
